@@ -45,7 +45,7 @@ LAWS_C17 = ["TypeOK", "EqReflexive", "EqSymmetric", "EqDetectsDifference", "AddA
             "IterationIsIndexing", "DataAlgebra", "JackknifeShortcut", "GetArrayLaw", "AcceptIffValid"]
 LAWS_C04 = ["TypeOK", "NormaliserLaw", "JackknifeShortcut", "EstimatorLaw", "IntegralIsOne", "RedshiftLaw",
             "AcceptIffValid", "MulScales", "BinsCommuteWithSampling", "GetArrayLaw"]
-DEVIATIONS = ["MulCountAttr", "FancyPatchIndex", "AddPassesClosed", "AddDropsMembers", "SwNdimChain"]
+DEVIATIONS = ["MulCountAttr", "FancyPatchIndex", "AddPassesClosed", "AddDropsMembers", "SwNdimChain", "NumpyIndexOnCounts"]
 
 CLASSNAME = dict(PC="PatchedCounts", SW="PatchedSumWeights", NC="NormalisedCounts", CF="CorrFunc", SD="SampledData",
                  CD="CorrData")
@@ -373,9 +373,24 @@ def _iterate(indexer, fresh):
     return full
 
 
-def pysel(sel):
+NP_INDEX_FLAVOURS = ("int64", "int32", "intp", "arange_element")
+
+
+def np_index(lo: int, salt: int = 0):
+    """A numpy integer scalar of value lo (sel.t = "npint"); the flavour rotates with the value and the position in
+    the history, np.int64 being the most frequent one.  -> (index, flavour)"""
+    flavour = ("int64",) + NP_INDEX_FLAVOURS
+    name = flavour[(lo + salt) % len(flavour)]
+    if name == "arange_element":
+        return np.arange(lo, lo + 1)[0], name      # what iterating / indexing an index array hands out
+    return getattr(np, name)(lo), name
+
+
+def pysel(sel, salt: int = 0):
     if sel["t"] == "int":
         return int(sel["lo"])
+    if sel["t"] == "npint":
+        return np_index(int(sel["lo"]), salt)[0]
     conv = lambda x: None if x == NONE else int(x)  # noqa: E731
     return slice(conv(sel["lo"]), conv(sel["hi"]), conv(sel["st"]))
 
@@ -386,6 +401,9 @@ def sel_class(sel, n=None) -> str:
         if n is not None and not (-n <= lo < n):
             return "int_out_of_range"
         return "negint" if lo < 0 else "int"
+    if sel["t"] == "npint":      # a numpy integer scalar as index
+        lo = sel["lo"]
+        return "npint_out_of_range" if n is not None and not (-n <= lo < n) else "npint"
     if sel["st"] != NONE:
         return "stepslice"
     return "slice"
@@ -404,6 +422,8 @@ def arg_class(h, vws, res_out="") -> str:
     if op == "IsCompat":
         return "workspace"
     if op == "RAdd":
+        if h["var"]:
+            return "sum_compatible" if h["var"] in ("copy", "counts") else f"sum_{h['var']}"
         return "sum" if h["j"] else f"left_{h['sel']['lo']}"
     if op == "Mul":
         sc = h["sc"]
@@ -506,7 +526,7 @@ def get_array_target(world: World, a, var: str):
     return obj
 
 
-def execute(world: World, h, res, rws):
+def execute(world: World, h, res, rws, salt: int = 0):
     """-> ("val", obj) | ("rej", exc) | ("bool", x) | ("list", [...]) | ("arr", ndarray) | ("asym", (x == y, y == x)) | ("other", x)."""
     op = h["op"]
     a = rws[h["i"] - 1]
@@ -522,7 +542,10 @@ def execute(world: World, h, res, rws):
         elif op == "SubVar":
             r = a - _operand(world, h, args, a)
         elif op == "RAdd":
-            r = sum([a, rws[h["j"] - 1]]) if h["j"] else (int(h["sel"]["lo"]) + a)
+            if h["var"]:
+                r = sum([a, _operand(world, h, args, a)])
+            else:
+                r = sum([a, rws[h["j"] - 1]]) if h["j"] else (int(h["sel"]["lo"]) + a)
         elif op == "Mul":
             r = a * world.scalar(h["sc"], a)
         elif op in ("Eq", "EqVar"):
@@ -536,10 +559,23 @@ def execute(world: World, h, res, rws):
             r = a.is_compatible(rws[h["j"] - 1], require=h["req"])
         elif op == "IsCompatVar":
             r = a.is_compatible(_operand(world, h, args, a), require=h["req"])
-        elif op == "Bins":
-            r = a.bins[pysel(h["sel"])]
-        elif op == "Patches":
-            r = a.patches[pysel(h["sel"])]
+        elif op in ("Bins", "Patches"):
+            indexer = (lambda: a.bins) if op == "Bins" else (lambda: a.patches)
+            r = indexer()[pysel(h["sel"], salt)]
+            if h["sel"]["t"] == "npint":
+                # the type of an index does not matter: the same selection with the Python int
+                try:
+                    ref = indexer()[int(h["sel"]["lo"])]
+                except Exception:
+                    ref = None
+                if ref is not None:
+                    try:
+                        eq = r == ref
+                        same = isinstance(eq, (bool, np.bool_)) and bool(eq)
+                    except Exception:
+                        same = False
+                    if not same:
+                        return ("intdiff", r)
         elif op == "IterBins":
             r = _iterate(a.bins, lambda: a.bins)
         elif op == "IterPatches":
@@ -655,6 +691,8 @@ class Judge:
     def detail(self, scen, hist, res, extra):
         d = dict(scenario={k: (sorted(v) if isinstance(v, (set, frozenset)) else v) for k, v in scen.items()},
                  history=[_short_entry(h) for h in hist], expected=_short_res(res), hist_full=hist)
+        if hist and hist[-1]["sel"]["t"] == "npint":
+            d["numpy_index_type"] = np_index(int(hist[-1]["sel"]["lo"]), len(hist))[1]
         d.update(extra)
         return d
 
@@ -699,6 +737,12 @@ class Judge:
             return self._judge_construct(scen, hist, res, vws, det)
         if kind == "other":
             self.violation(h, vws, "returns_NotImplemented", det(real=repr(val)))
+            return None
+        if kind == "intdiff":
+            # x.bins[np.int64(i)] (or .patches) is not equal to x.bins[int(i)]
+            mm = w.mismatches(val, res["v"]) if exp == "val" else []
+            self.violation(h, vws, "wrong_" + _first(mm) if mm else "differs_from_python_int_index",
+                           det(fields=mm, real=_describe(val), index=np_index(int(h["sel"]["lo"]), len(hist))[1]))
             return None
         if kind == "asym":
             if exp == "open":
@@ -911,7 +955,9 @@ def _short_entry(h) -> dict:
         out["j"] = h["j"]
     if h["var"]:
         out["var"] = h["var"]
-    if h["sel"]["t"] != "none":
+    if h["sel"]["t"] == "npint":
+        out["sel"] = f"numpy_integer({h['sel']['lo']})"
+    elif h["sel"]["t"] != "none":
         out["sel"] = h["sel"]["lo"] if h["sel"]["t"] == "int" else \
             "slice(%s,%s,%s)" % tuple("None" if x == NONE else x for x in (h["sel"]["lo"], h["sel"]["hi"], h["sel"]["st"]))
     if h["sc"]["cls"] != "none" or h["op"] == "Mul":
@@ -967,6 +1013,7 @@ class Replayer:
         self.pairs_seen: dict = {}   # (previous operation, operation) of the replayed histories of length >= 2
         self.eq_on_undefined = 0     # == with a prescribed result, executed on a real container holding NaN
         self.mutations = 0           # steps after which an older object of the workspace had changed
+        self.classes_seen: dict = {}  # (class, operation, input class, expected outcome) of the replayed steps
         self.sampling_is_foreign = sampling_is_foreign
 
     @staticmethod
@@ -1015,9 +1062,14 @@ class Replayer:
             if len(khist) > 1:
                 pair = (khist[-2]["op"], h["op"])
                 self.pairs_seen[pair] = self.pairs_seen.get(pair, 0) + 1
+                if h["sel"]["t"] == "npint":
+                    pair = (pair[0], pair[1] + ":npint")
+                    self.pairs_seen[pair] = self.pairs_seen.get(pair, 0) + 1
+            ck = (CLASSNAME.get(vws[h["i"] - 1]["k"], "?"), OPNAME[h["op"]], arg_class(h, vws, res["out"]), res["out"])
+            self.classes_seen[ck] = self.classes_seen.get(ck, 0) + 1
             if h["op"] in ("Eq", "EqVar") and res["out"] == "bool" and has_undefined(vws[h["i"] - 1]):
                 self.eq_on_undefined += 1
-            outcome = execute(self.world, h, res, rws)
+            outcome = execute(self.world, h, res, rws, salt=len(khist))
             obj = self.judge.judge(scen, khist, res, vws, outcome, base_sampling_ok=base_ok)
             # operands must be unchanged (operations are pure)
             for pos, (ro, v) in enumerate(zip(rws, vws)):
